@@ -12,7 +12,7 @@ type Tape struct {
 	replay bool     // replay mode: read from in
 	in     []uint64 // values to replay
 	pos    int
-	tail   bool // replay mode: once the recorded values are exhausted, continue with the generator
+	tail   bool     // replay mode: once the recorded values are exhausted, continue with the generator
 	Rec    []uint64 // values handed out (already reduced)
 }
 
